@@ -184,7 +184,19 @@ def gen_calc(rng, V, tbl="public", which=None, pool=None):
     which = which or rng.choice(
         ["nscat", "nsld", "xsld", "volume", "activation", "d2o_match", "fasta_const",
          "emission_table", "xsld_table", "nsld_table", "nsf_tables", "list", "mff", "f0", "mass",
-         "refraction", "composite", "d2o_sld", "fasta_seq", "formula_methods", "show_table", "iadd", "new_isotope"])
+         "refraction", "composite", "d2o_sld", "fasta_seq", "formula_methods", "show_table", "iadd", "new_isotope", "cromermann"])
+    if which == "cromermann":
+        Z = rng.choice(HOT_Z) if rng.random() < 0.6 else rng.randint(1, 92)
+        e = V.els[Z]
+        sym = e["symbol"]
+        charge = None
+        r = rng.random()
+        if e["ions"] and r < 0.3:
+            charge = rng.choice(e["ions"])
+        elif e["ions"] and r < 0.5:
+            q = rng.choice(e["ions"])
+            sym += "%d%s" % (abs(q), "+" if q > 0 else "-") if rng.random() < 0.7 or abs(q) > 1 else ("+" if q > 0 else "-")
+        return ["calc", tbl, which, sym, rng.choice([[0.0, 1.0, 5.0], 1.0]), charge]
     if which == "new_isotope":
         Z = rng.choice(HOT_Z + [1, 1, 26]) if rng.random() < 0.6 else rng.choice([z for z in V.Z if V.els[z]["isotopes"]])
         isos = V.els[Z]["isotopes"]
@@ -264,7 +276,11 @@ def gen_calc(rng, V, tbl="public", which=None, pool=None):
         return ["calc", tbl, which, ref, q, rng.choice([[0.0, 0.1, 0.2], 0.1, [0.3]]),
                 rng.choice(["M_Q", "M_Q", "j0_Q", "j2_Q", "j4_Q", "j6_Q", "J_Q"])]
     if which == "f0":
-        return ["calc", tbl, which, V.atom(rng, rng.choice(["el", "ion", "isoion"])), rng.choice([[0.0, 1.0, 5.0], 1.0, [0.5]])]
+        at = V.atom(rng, rng.choice(["el", "ion", "isoion"]))
+        if rng.random() < 0.5:
+            Z = rng.choice([z for z in HOT_Z if V.els[z]["ions"]])
+            at = [Z, 0, rng.choice(V.els[Z]["ions"] + [0])]
+        return ["calc", tbl, which, at, rng.choice([[0.0, 1.0, 5.0], 1.0, [0.5]])]
     return ["calc", tbl, which]
 
 
@@ -350,6 +366,9 @@ def c09_burst_strata():
          ["calc", "public", "nscat", "Lu2O3", 5.0, 0.5], ["calc", "public", "nscat", "Lu[176]2O3", 5.0, 0.5]],
         [["calc", "public", "xsld", "Fe2O3", 5.0, 8.04], ["calc", "public", "xsld", "Fe{3+}2O3", 5.0, 8.04],
          ["calc", "public", "xsld", "Fe[56]{3+}2O3", 5.0, 8.04], ["calc", "public", "xsld", "Fe[56]2O3", 5.0, 8.04]],
+        [["calc", "public", "f0", [26, 0, 2], [0.0, 1.0, 5.0]], ["calc", "public", "cromermann", "Fe", [0.0, 1.0, 5.0], None],
+         ["calc", "public", "cromermann", "Fe", 1.0, 3], ["calc", "public", "cromermann", "Fe", 1.0, None],
+         ["calc", "public", "cromermann", "Fe3+", 1.0, None], ["calc", "public", "f0", [26, 0, 0], 1.0]],
         # an isotope added after the groups were first touched through different routes
         [["read", "public", [1, 0, 0], "neutron", "attr"], ["calc", "public", "new_isotope", 1, 8]],
         [["read", "public", [26, 0, 0], "neutron", "hasattr"], ["calc", "public", "new_isotope", 26, 99]],
